@@ -160,7 +160,11 @@ func init() {
 			var us []*bt.UTXO
 			for _, u := range strings.Split(r[2:], "|") {
 				f := strings.Split(u, ":")
-				us = append(us, &bt.UTXO{TxID: mustHex(f[0]), Vout: uint32(mustU(f[1], 32)), LockingScript: optScr(f[2]), Satoshis: mustU(f[3], 64)})
+				u := &bt.UTXO{TxID: mustHex(f[0]), Vout: uint32(mustU(f[1], 32)), LockingScript: optScr(f[2]), Satoshis: mustU(f[3], 64)}
+				if len(f) > 4 { // whatever sequence number the supplier's record carries: funded inputs are final regardless
+					u.SequenceNumber = uint32(mustU(f[4], 32))
+				}
+				us = append(us, u)
 			}
 			return us, nil
 		})
@@ -365,6 +369,9 @@ func genC12(e *emitter, tier string, seed uint64) {
 			sc = "-"
 		} else if r.chance(3) {
 			sc = hex.EncodeToString(r.bytes(10))
+		}
+		if r.chance(40) {
+			return fmt.Sprintf("%s:%d:%s:%d:%d", hex.EncodeToString(txid), r.n(4), sc, sats, []uint32{5, 1, 0xfffffffe, 0xffffff, 0xffffffff}[r.n(5)])
 		}
 		return fmt.Sprintf("%s:%d:%s:%d", hex.EncodeToString(txid), r.n(4), sc, sats)
 	}
